@@ -184,6 +184,12 @@ def judge_region(rec, case, want_tt):
 # ---- keyword table ---------------------------------------------------------
 KW_CONTEXTS = [(' ', ' '), ('(', ')'), ('', ''), (',', ','), ('\n', ';'),
                ('=', ' ')]
+# behind the first word of a multi-word rule (ORDER BY, PRIMARY KEY, NOT
+# NULL, END IF ...): the word must still be a token of its own unless the
+# reference rules really join the two
+KW_AFTER_WORD = ['order ', 'group ', 'primary ', 'not ', 'end ', 'union ',
+                 'left ', 'double ', 'handler ', 'create or ', 'nulls ',
+                 'asc nulls ', 'lateral view ', 'at time ', 'go ', 'inner ']
 WORD_RE = re.compile(r'^\w[$#\w]*$')
 
 
@@ -251,9 +257,23 @@ def casings(rng, w):
     return [w.upper(), w.lower(), w.capitalize(), mixed]
 
 
+def boundary_at(text, pos):
+    """Does the reference rule table put a token boundary at pos?"""
+    off = 0
+    while off < pos:
+        idx, tt, m = oracles.first_rule_at(text, off)
+        off = m.end() if m is not None else off + 1
+    return off == pos
+
+
 def check_word(rec, rng, w, dict_tt):
     for spelled in casings(rng, w):
-        for L, R in KW_CONTEXTS:
+        ctxs = list(KW_CONTEXTS)
+        ctxs.append((rng.choice(KW_AFTER_WORD), rng.choice([' ', ';', ''])))
+        for L, R in ctxs:
+            if len(L) > 1 and not boundary_at(L + spelled + R, len(L)):
+                rec.count('words_not_judged_(joined_by_a_multi_word_rule)')
+                continue
             text = L + spelled + R
             rec.case()
             want = expected_type(text, len(L), spelled, dict_tt)
